@@ -252,3 +252,197 @@ def cv4(prog, rr):
         if not s.u:
             rr.finding(f, lp, "covergroup.sample", "CV4: for some kind of field the argument is not copied (the coverpoint then samples the previous value)",
                        text="branch without write")
+
+
+# --------------------------------------------------------------------------------------- RN6
+@rule("RN6", ["C04", "C02"], "no constraint expansion reads the current value of a list size that is being solved in the same call", engine="CG+DF", floor=4)
+def rn6(prog, rr):
+    from sa.cg import solve_path, model_layer
+    from tables.exceptions import RN6_BOOKKEEPING
+    funcs = [f for f in solve_path(prog) if model_layer(f.module.name)]
+    par_cache = {}
+    n = 0
+    for f in sorted(funcs, key=lambda x: x.qual):
+        for c in walk_local(f.node):
+            if not (isinstance(c, ast.Call) and isinstance(c.func, ast.Attribute) and c.func.attr in ("get_val", "val")):
+                continue
+            rv = norm(c.func.value)
+            if not (rv.endswith(".size") or rv == "size"):
+                continue
+            n += 1
+            q = _q(f)
+            rr.inst("size read %s in %s" % (norm(c), q))
+            if f.name in ("post_randomize",) or q in RN6_BOOKKEEPING:
+                continue
+            guards = []
+            if f not in par_cache:
+                par = {}
+                for x in ast.walk(f.node):
+                    for ch in ast.iter_child_nodes(x):
+                        par[ch] = x
+                par_cache[f] = par
+            par = par_cache[f]
+            x = c
+            while x in par:
+                p = par[x]
+                if isinstance(p, ast.If):
+                    guards.append((norm(p.test), any(x is y for y in p.body)))
+                x = p
+            ok = any(("not" in t and ("is_rand_sz" in t or "is_used_rand" in t) and pos) or
+                     (("is_rand_sz" in t or "is_used_rand" in t) and "not" not in t and not pos) for t, pos in guards)
+            if not ok:
+                rr.finding(f, c, q, "RN6: %s reads the list's current size while building the constraint; for a random-size list that value is whatever "
+                           "an earlier rand set (or the previous call) left there, so sum/product/foreach are expanded over a stale element count and a "
+                           "satisfiable size/element coupling fails or is violated" % norm(c))
+    rr.note("size reads examined: %d" % n)
+
+
+# --------------------------------------------------------------------------------------- FT10
+@rule("FT10", ["C04"], "elements pre-extended for a random-size solve are dropped again once the size is known", engine="DF", floor=2)
+def ft10(prog, rr):
+    acb = prog.method("ArrayConstraintBuilder", "visit_field_scalar_array")
+    ext = [n for n in walk_local(acb.node) if isinstance(n, ast.Call) and call_name(n) == "add_field"]
+    rr.inst("pre-extension sites in ArrayConstraintBuilder.visit_field_scalar_array: %d" % len(ext))
+    if not ext:
+        return      # nothing is pre-extended, nothing to undo
+    scalar_only = all(any("is_scalar" in t for t, pos in _guards_of(acb.node, e)) for e in ext)
+    pr = prog.method("FieldArrayModel", "post_randomize")
+    trunc = []
+    for n in walk_local(pr.node):
+        if isinstance(n, ast.Delete) and any(isinstance(t, ast.Subscript) and norm(t.value) == "self.field_l" and isinstance(t.slice, ast.Slice) for t in n.targets):
+            trunc.append(n)
+        if isinstance(n, ast.Assign) and any(norm(t) == "self.field_l" for t in n.targets) and "self.field_l[" in norm(n.value):
+            trunc.append(n)
+    rr.inst("FieldArrayModel.post_randomize truncations: %d" % len(trunc))
+    if not trunc:
+        rr.finding(pr, pr.node, "FieldArrayModel.post_randomize", "FT10: random-size lists are pre-extended to their maximum size before the solve (%s) but the "
+                   "extra elements are never removed afterwards: append()/extend() then add behind stale elements and the length jumps to the storage size"
+                   % "ArrayConstraintBuilder.visit_field_scalar_array", text="no truncation to size")
+        return
+    for t in trunc:
+        txt = norm(t)
+        if "self.size.get_val()" not in txt:
+            rr.finding(pr, t, "FieldArrayModel.post_randomize", "FT10: the element storage is not cut at the solved size: %s" % txt)
+        g = [x for x, pos in _guards_of(pr.node, t) if pos]
+        if not any("is_rand_sz" in x for x in g) or (scalar_only and not any("is_scalar" in x for x in g)):
+            rr.finding(pr, t, "FieldArrayModel.post_randomize", "FT10: truncation is not restricted to the lists that were pre-extended (guards: %s); "
+                       "fixed-size or object lists would lose user elements" % g)
+
+
+def _guards_of(fnode, node):
+    par = {}
+    for n in ast.walk(fnode):
+        for ch in ast.iter_child_nodes(n):
+            par[ch] = n
+    out = []
+    n = node
+    while n in par:
+        p = par[n]
+        if isinstance(p, ast.If):
+            out.append((norm(p.test), any(n is x for x in p.body)))
+        n = p
+    return out
+
+
+# --------------------------------------------------------------------------------------- LW8
+@rule("LW8", ["C02"], "the constant folder evaluates every expression kind itself (no operator inherits the do-nothing traversal)", engine="XS", floor=8)
+def lw8(prog, rr):
+    from tables.exceptions import LW8_INHERITED_OK
+    mv = prog.cls("ModelVisitor")
+    xe = prog.cls("XExprEvaluator")
+    kinds = sorted(n for n in mv.methods if n.startswith("visit_expr_"))
+    rr.require(len(kinds) >= 12, "ModelVisitor expression handlers not found")
+    for k in kinds:
+        f = prog.lookup(xe, k)
+        own = f is not None and f.cls is xe
+        rr.inst("XExprEvaluator.%s %s" % (k, "own" if own else "inherited from " + (f.cls.name if f else "?")))
+        if own:
+            # an own handler must decide is_x (directly or by delegating to a handler / field that does)
+            t = norm(f.node)
+            if "self.is_x" not in t and ".accept(self)" not in t:
+                rr.finding(f, f.node, "XExprEvaluator." + k, "LW8: the handler neither sets is_x nor delegates", text="no result")
+            continue
+        if k in LW8_INHERITED_OK:
+            rr.note("inherited %s accepted: %s" % (k, LW8_INHERITED_OK[k][:80]))
+            continue
+        rr.finding(xe, xe.node, "XExprEvaluator." + k, "LW8: %s is inherited from the default traversal, which merely visits the operands: the folded value is "
+                   "that of the last operand visited and the operator is ignored, so a constant if-condition using it keeps the wrong branch" % k,
+                   text="inherited " + k)
+    # the folder is what decides a branch at expansion time
+    acb = prog.method("ArrayConstraintBuilder", "visit_constraint_if_else")
+    rr.inst("ArrayConstraintBuilder.visit_constraint_if_else uses XExprEvaluator: %s" % ("XExprEvaluator().eval(" in norm(acb.node)))
+
+
+# --------------------------------------------------------------------------------------- LW10
+VALUE_PRESERVING_DEFAULTS = {
+    "visit_expr_dynamic": "the default descends into the single expanded expression e.expr(); its handler produces the copy",
+}
+
+
+@rule("LW10", ["C01", "C02", "C04"], "the constraint copier (foreach expansion) has a producing handler for every expression kind", engine="XS+SAI", floor=20)
+def lw10(prog, rr):
+    mv = prog.cls("ModelVisitor")
+    base = prog.cls("ConstraintCopyBuilder")
+    kinds = sorted(n for n in mv.methods if n.startswith("visit_expr_"))
+    fam = [c for c in prog.subclasses(base) if c is base or callgraph_live(prog, c)]
+    for c in sorted(fam, key=lambda k: k.name):
+        for k in kinds:
+            f = prog.lookup(c, k)
+            rr.inst("%s.%s -> %s" % (c.name, k, f.cls.name if f else None))
+            if f is None:
+                continue
+            if f.cls is mv:
+                # forwarding defaults (array_sum -> dynamic) are followed
+                tgt = k
+                body = sig_body(f.node)
+                if len(body) == 1 and isinstance(body[0], ast.Expr) and isinstance(body[0].value, ast.Call) and norm(body[0].value.func).startswith("self.visit_expr_"):
+                    tgt = body[0].value.func.attr
+                    g = prog.lookup(c, tgt)
+                    if g is not None and g.cls is not mv:
+                        continue
+                if tgt in VALUE_PRESERVING_DEFAULTS:
+                    continue
+                if c is not base and prog.lookup(base, k).cls is mv:
+                    continue        # reported once, at the copier itself
+                rr.finding(c, c.node, "%s.%s" % (c.name, k), "LW10: %s has no copy handler in %s: the inherited traversal merely visits the operands, so the copy of "
+                           "such an expression is whatever its last operand produced (a part-select becomes its index literal) or None; every foreach body "
+                           "is rebuilt through this copier" % (k.replace("visit_expr_", ""), c.name), text="inherited " + k)
+                continue
+            # own handler: every normal path in copy mode assigns self._expr or delegates to a producing handler of the family
+            res = set()
+
+            class D(Domain):
+                def initial_user(s):
+                    return False
+
+                def on_assign(s, st, stmt):
+                    if any(t == "self._expr" for t in assigned_targets(stmt)):
+                        return st._replace(u=True)
+                    return st
+
+                def on_call(s, st, call, ctx):
+                    fn = call.func
+                    if isinstance(fn, ast.Attribute) and fn.attr == k and not (isinstance(fn.value, ast.Name) and fn.value.id == "self"):
+                        return [(FALL, st._replace(u=True), None)]       # super().visit_K / Base.visit_K(self, ..)
+                    return [(FALL, st, None)]
+
+                def decide(s, st, test, ctx):
+                    t = norm(test).replace(" ", "")
+                    if t in ("self.do_copy_level>0",):
+                        return [(True, st)]
+                    if t in ("self.phase!=1", "self.phase==0"):
+                        return [(False, st)]
+                    if t in ("self.phase==1",):
+                        return [(True, st)]
+                    return super().decide(st, test, ctx)
+            outs = Interp(D(), func=f).run(f.node)
+            exits = outs.fall | outs.ret
+            if any(not s.u for s in exits):
+                rr.finding(f, f.node, "%s.%s" % (f.cls.name, k), "LW10: in copy mode some path through %s.%s produces no expression (self._expr stays None): the "
+                           "enclosing expression is then built with a None operand and randomize() fails with an internal AttributeError"
+                           % (f.cls.name, k), text="no _expr on some path")
+
+
+def callgraph_live(prog, c):
+    from sa.cg import callgraph
+    return callgraph(prog).live_class(c)
